@@ -105,6 +105,40 @@ class RunGuard:
             self.old = None
 
 
+def alt_config_pass(plug, ctx, res):
+    """Second, quick-sized pass of the plug-in's streams with the package's process-wide hardware flag switched on
+    (netqasm.runtime.settings.set_is_using_hardware(True), what the `netqasm run --hardware` entry point does).
+    No property here is stated relative to that flag and nothing in the modelled code reads it on the pinned tree, so
+    every stream must behave exactly as in the first pass; failures and disagreements of this pass are reported
+    with the configuration named in their input."""
+    try:
+        from netqasm.runtime import settings as S
+        old = S.get_is_using_hardware()
+        S.set_is_using_hardware(True)
+    except Exception as e:
+        ctx.notes.append(f"alt-config pass skipped: {type(e).__name__}: {e}")
+        return
+    ctx2 = Ctx(ctx.prop, "quick", ctx.seed + 7919)
+    ctx2._driver = ctx.driver
+    try:
+        r2 = plug.run(ctx2)
+    finally:
+        S.set_is_using_hardware(old)
+    cfg = "netqasm.runtime.settings.set_is_using_hardware(True)"
+    for f in r2.failures:
+        f = dict(f)
+        f["input"] = {"config": cfg, "input": f.get("input")}
+        res.failures.append(f)
+    for d in r2.disagreements:
+        d = dict(d)
+        d["stream"] = str(d.get("stream")) + " [config: hardware flag on]"
+        res.disagreements.append(d)
+    res.evaluations += r2.evaluations
+    res.count("alt-config-pass-cases", r2.evaluations)
+    ctx.notes.append(f"alt-config pass ({cfg}): {r2.evaluations} cases, {len(r2.failures)} failures, "
+                     f"{len(r2.disagreements)} disagreements")
+
+
 def generic_replay(plug, prop, payload):
     """Replay for plug-ins without their own `replay`: every random choice of a run derives from
     (seed, property), so re-running the plug-in's streams with the recorded seed and tier on the
@@ -240,6 +274,8 @@ def main():
     try:
         guard.arm()
         res = plug.run(ctx)
+        if (args.tier == "thorough" or os.environ.get("VERIF_ALT_CONFIG") == "1") and getattr(plug, "ALT_CONFIG", True):
+            alt_config_pass(plug, ctx, res)
         guard.disarm()
     except Exception as exc:
         guard.disarm()
